@@ -1,11 +1,157 @@
 (* C17 — WebSocket frames round-trip exactly, whatever the segmentation or fragmentation.
-   Only statements here; proofs live in Proofs/WebSocketP.v. *)
-From Coq Require Import List NArith.
-From Circ Require Import Model.WebSocket Proofs.WebSocketP.
+   Only statements here; proofs live in Proofs/WebSocketP.v.
+
+   Model/WebSocket.v is the codec (as repaired by fixes/C17_*.patch): [send] = the write handler,
+   [recv] = one read event through _parse_messages plus the close handler, [recv_all] = a sequence of
+   reads.  The conforming peer is specified by the independent encoder [rfc_frame] (RFC 6455 5.2) and by
+   [items_bytes] (messages, possibly split into continuation frames, ping/pong frames in between).
+   Vocabulary from the proofs file:
+     keyf k4 n        = the n-th masking key the endpoint draws (os.urandom), k4 : nat -> key4 arbitrary
+     okey k4 client n = Some (k4 n) for a client endpoint (which masks), None for a server endpoint
+     clean n          = codec state with empty buffer, no pending fragments, no close seen or sent,
+                        n keys drawn so far
+     pongs k4 client n qs = the frames [rfc_frame true 10 key q] for the ping payloads qs, in order
+     bumps client n k = key index after writing k more frames
+     wf_len p         = length p < 2^64 ;  wf_item = wf_len of every payload in the item *)
+From Coq Require Import List NArith Bool.
+From Circ Require Import Lib.Obs Model.WebSocket Proofs.WebSocketP.
 Import ListNotations.
 Open Scope N_scope.
 
-Theorem C17_mask_involution : forall d k0 k1 k2 k3,
-  xor_cycle k0 k1 k2 k3 (xor_cycle k0 k1 k2 k3 d) = d.
-Proof. exact xor_cycle_invol. Qed.
-Print Assumptions C17_mask_involution.
+(* ---- endpoint -> peer: what the write handler emits IS the RFC frame of the message: FIN, opcode
+   1 (text) / 2 (binary), minimal length encoding, masked with the drawn key iff the endpoint is a client *)
+Theorem C17_write_is_rfc_frame : forall (k4 : nat -> key4) (client : bool) s (text : bool) p,
+  csent s = false ->
+  send (keyf k4) client s text p =
+  ROk (mkS (buf s) (mkP (pend (ps s)) (ptype (ps s)) (bump client (nk (ps s)))) (crecv s) false,
+       mkO [] [rfc_frame true (if text then 1 else 2) (okey k4 client (nk (ps s))) p] 0).
+Proof. exact send_rfc. Qed.
+Print Assumptions C17_write_is_rfc_frame.
+
+(* ---- peer -> endpoint, one frame: every RFC frame (7-bit, 16-bit and 64-bit length, masked with any
+   key or unmasked, any opcode, FIN or not) is decoded to exactly its payload and the bytes after it *)
+Theorem C17_decode_frame : forall (fin : bool) op (mk : option key4) p rest,
+  op < 16 -> wf_len p ->
+  parse_frame (rfc_frame fin op mk p ++ rest) = FFrame fin op p rest.
+Proof. exact parse_rfc_frame. Qed.
+Print Assumptions C17_decode_frame.
+
+(* ---- round trip under every cut: the frame of a message, cut into reads anywhere (inside the header,
+   the extended length, the key, the payload), delivers exactly that message, once *)
+Theorem C17_roundtrip : forall (k4 : nat -> key4) (client : bool) (text : bool) (mk : option key4) p n chunks,
+  wf_len p ->
+  concat chunks = rfc_frame true (if text then 1 else 2) mk p ->
+  recv_all (keyf k4) client (clean n) chunks = ROk (clean n, mkO [(text, p)] [] 0).
+Proof. exact roundtrip. Qed.
+Print Assumptions C17_roundtrip.
+
+(* ---- segmentation: for ANY byte stream (conforming or not) and any key oracle, feeding it in pieces
+   is the same as feeding it at once: same messages, same frames written, same close, same final state *)
+Theorem C17_segmentation : forall (keyfn : nat -> list N) (client : bool) s chunks,
+  buf s = [] ->
+  recv_all keyfn client s chunks = recv_all keyfn client s [concat chunks].
+Proof. exact segmentation. Qed.
+Print Assumptions C17_segmentation.
+
+(* ... from any state at all (bytes of an unfinished frame in the buffer, fragments pending, close sent) *)
+Theorem C17_segmentation_any_state : forall (keyfn : nat -> list N) (client : bool) cs s c,
+  recv_all keyfn client s (c :: cs) = recv_all keyfn client s [concat (c :: cs)].
+Proof. exact segmentation_ne. Qed.
+Print Assumptions C17_segmentation_any_state.
+
+Theorem C17_cut_independent : forall (keyfn : nat -> list N) (client : bool) s cs1 cs2,
+  buf s = [] -> concat cs1 = concat cs2 ->
+  recv_all keyfn client s cs1 = recv_all keyfn client s cs2.
+Proof. exact segmentation_eq. Qed.
+Print Assumptions C17_cut_independent.
+
+(* ---- fragmentation and control frames: any sequence of messages, each split into any number of
+   continuation frames (each with its own key or none, empty fragments allowed), with ping and pong frames
+   after any fragment, cut into reads anywhere: delivered = exactly the messages (type, concatenated
+   payload), written = exactly one pong per ping, same payload, in order; nothing else *)
+Theorem C17_fragmentation : forall (k4 : nat -> key4) (client : bool) (l : list item) n chunks,
+  Forall wf_item l ->
+  concat chunks = items_bytes l ->
+  recv_all (keyf k4) client (clean n) chunks =
+  ROk (clean (bumps client n (length (expected_pings l))),
+       mkO (expected_msgs l) (pongs k4 client n (expected_pings l)) 0).
+Proof. exact recv_items_any_cut. Qed.
+Print Assumptions C17_fragmentation.
+
+(* ---- close: after the peer's close frame nothing that follows is delivered; the close frame is
+   answered by one close frame; the codec has then both received and sent close *)
+Theorem C17_close : forall (k4 : nat -> key4) (client : bool) (l : list item) n k q junk chunks,
+  Forall wf_item l -> wf_len q ->
+  concat chunks = items_bytes l ++ rfc_frame true 8 k q ++ junk ->
+  recv_all (keyf k4) client (clean n) chunks =
+  ROk (mkS [] (mkP [] None (bumps client n (length (expected_pings l)))) true true,
+       mkO (expected_msgs l) (pongs k4 client n (expected_pings l) ++ [[136; 0]]) 1).
+Proof. exact recv_items_close_any_cut. Qed.
+Print Assumptions C17_close.
+
+Theorem C17_nothing_delivered_after_close : forall (keyfn : nat -> list N) (client : bool) s c,
+  crecv s = true -> recv keyfn client s c = ROk (s, no_out).
+Proof. exact recv_closed. Qed.
+Print Assumptions C17_nothing_delivered_after_close.
+
+Theorem C17_nothing_sent_after_close : forall (k4 : nat -> key4) (client : bool) s (text : bool) p,
+  csent s = true -> send (keyf k4) client s text p = ROk (s, no_out).
+Proof. exact send_closed. Qed.
+Print Assumptions C17_nothing_sent_after_close.
+
+(* ---- the decoder never raises and the frame loop never runs out of fuel, whatever bytes arrive in
+   whatever state (this is what the header-cut and ping-after-close repairs establish) *)
+Theorem C17_never_raises : forall (k4 : nat -> key4) (client : bool) s c,
+  exists s' o, recv (keyf k4) client s c = ROk (s', o).
+Proof. exact recv_total. Qed.
+Print Assumptions C17_never_raises.
+
+(* ---- non-vacuity *)
+Definition ex_k4 (n : nat) : key4 := (N.of_nat n + 1, 2, 3, 4).
+
+(* a text message "ab|c|" in three fragments, a ping "P" after the first and a pong after the second,
+   followed by a binary message of 126 bytes; client->server frames masked *)
+Definition ex_items : list item :=
+  [IMsg true (Some (9, 8, 7, 6), [97; 98], [Ping (Some (1, 1, 1, 1)) [80]])
+        [(None, [99], [Pong None []]); (Some (0, 0, 0, 255), [], [])];
+   IMsg false (None, rep 126 [5], []) []].
+
+Example C17_ex_wf : Forall wf_item ex_items.
+Proof. repeat constructor. Qed.
+
+(* byte-at-a-time *)
+Example C17_ex_bytewise :
+  recv_all (keyf ex_k4) false (clean 0) (map (fun b => [b]) (items_bytes ex_items))
+  = ROk (clean 0, mkO [(true, [97; 98; 99]); (false, rep 126 [5])] [[138; 1; 80]] 0).
+Proof. vm_compute. reflexivity. Qed.
+
+(* a client endpoint answers with a masked pong *)
+Example C17_ex_client_pong :
+  recv_all (keyf ex_k4) true (clean 0) [[137; 1]; [80]]
+  = ROk (clean 1, mkO [] [[138; 129; 1; 2; 3; 4; 81]] 0).
+Proof. vm_compute. reflexivity. Qed.
+
+(* the three length encodings, masked, cut inside header / extended length / key *)
+Example C17_ex_len16 :
+  recv_all (keyf ex_k4) false (clean 0)
+    [[130]; [254; 0]; [126; 1; 2]; [3; 4] ++ xor_cycle 1 2 3 4 (rep 126 [7])]
+  = ROk (clean 0, mkO [(false, rep 126 [7])] [] 0).
+Proof. vm_compute. reflexivity. Qed.
+
+Example C17_ex_len64 :
+  match parse_frame (rfc_frame true 2 (Some (1, 2, 3, 4)) (rep 65536 [7]) ++ [1]) with
+  | FFrame true 2 p [1] => (N.of_nat (length p) =? 65536) && forallb (N.eqb 7) p
+  | _ => false
+  end = true
+  /\ firstn 10 (rfc_frame true 2 (Some (1, 2, 3, 4)) (rep 65536 [7])) = [130; 255; 0; 0; 0; 0; 0; 1; 0; 0].
+Proof. split; vm_compute; reflexivity. Qed.
+
+Example C17_ex_close :
+  recv_all (keyf ex_k4) false (clean 0) [[129; 1; 97; 136]; [0; 129; 1; 98]; [129; 1; 99]]
+  = ROk (mkS [] (mkP [] None 0) true true, mkO [(true, [97])] [[136; 0]] 1).
+Proof. vm_compute. reflexivity. Qed.
+
+Example C17_ex_send :
+  send (keyf ex_k4) true (clean 0) true [104; 105] =
+  ROk (clean 1, mkO [] [[129; 130; 1; 2; 3; 4; 105; 107]] 0).
+Proof. vm_compute. reflexivity. Qed.
